@@ -59,6 +59,37 @@ def judge(ctx, cases, label):
                               f"{label}: {name}: later code does not run with an intact core: stack={vm.get('stack')} mp={vm.get('mp')} handlers={vm.get('handlers')}")
 
 
+def judge_sources(ctx, named, label):
+    """hand-written programs judged like the nestings: both backends == the specification, clean core afterwards"""
+    res = progstream.run_all([src for _, src in named], with_model_vm=True)
+    for (name, src), r in zip(named, res):
+        rep = {"kind": "nesting", "wrappers": [name], "exit": "-", "main": src}
+        if not r["A"].startswith("ACCEPT") and not r.get("crashed"):
+            ctx.broken.append(f"correspondence:program-rejected:{name}: {r['A'][:100]}")
+            continue
+        vm, tree, spec = r.get("VM"), r.get("TREE"), r.get("SPEC")
+        ctx.count(case_key=name, nontrivial=True)
+        if r.get("crashed") or vm is None:
+            ctx.violation(dict(rep, go=r["A"][:300]), f"{label}: {name}: a backend crashed the host: {r['A'][:100]}")
+            continue
+        if spec is None or spec["cls"] in ("UNSUPPORTED", "TIMEOUT", "DECODE-ERROR"):
+            ctx.broken.append(f"correspondence:spec-does-not-cover:{name}")
+            continue
+        bad = False
+        for bname, o in (("VM", vm), ("interpreter", tree)):
+            if o is None:
+                continue
+            if o["cls"] in ("PANIC", "CRASH", "HANG", "INTERRUPT", "TERM") or not progstream.same_outcome(o, spec):
+                ctx.violation(dict(rep, **{bname: o.get("raw", "")[:500], "spec": spec["raw"][:500]}),
+                              f"{label}: {name}: the {bname} does not do what the source says "
+                              f"({o['cls']} {o.get('kind', '')} out={o.get('out', '')[-70:]!r} vs spec {spec['cls']} {spec.get('kind', '')} out={spec.get('out', '')[-70:]!r})")
+                bad = True
+                break
+        if not bad and vm["cls"] == "OK" and (vm.get("stack"), vm.get("mp"), vm.get("handlers")) != ("0", "0", "0"):
+            ctx.violation(dict(rep, VM=vm["raw"][:400]),
+                          f"{label}: {name}: later code does not run with an intact core: stack={vm.get('stack')} mp={vm.get('mp')} handlers={vm.get('handlers')}")
+
+
 def run(ctx):
     st = core.prepare(ctx, MODULES)
     ctx.assumptions += [
@@ -73,6 +104,7 @@ def run(ctx):
     ctx.coverage["exhaustive"] = True
     for i in range(0, len(cases), 1500):
         judge(ctx, cases[i:i + 1500], "C11")
+    judge_sources(ctx, nesting.recursive_programs(), "C11 recursion")
     ctx.coverage["rule"] = ("all legal nestings of depth <= %d of 11 constructs (loop, while, for, block, if, match arm, try, try with a late throw, catch, call, function literal) around 8 exits (break, continue, return, throw, fatal error, return of a throwing operand, throw under a pending operand, throw in expression position), each followed by code that prints "
                             "locals, re-enters loops and calls the function again; non-trivial = every case (each exercises an exit)"
                             % (2 if ctx.tier == "quick" else 3))
